@@ -92,6 +92,16 @@ class Check:
     theorems = list(mod.THEOREMS)
     self.obligations = len(theorems)
     modules = mod.MODULE if isinstance(mod.MODULE, (list, tuple)) else [mod.MODULE]
+    # optional: regenerate Lean sources from /repo's current source before building (translator-based tie);
+    # a translation failure is a broken obligation (the theorems about the generated definitions cannot be
+    # re-checked), never a violation by itself
+    if hasattr(mod, 'pregen'):
+      try:
+        for note in (mod.pregen(self) or []): self.notes.append(note)
+      except InfraError:
+        raise
+      except Exception as e:
+        self.broken_theorems.append({'theorem': 'translator (pregen)', 'msg': f'{type(e).__name__}: {e}'[:1500]})
     exes = ['pv_' + h for h in mod.DRIVERS]
     ok, out, dt = leanio.lake_build(list(modules) + exes)
     self.build_s = dt
